@@ -1,6 +1,11 @@
 #!/bin/bash
 # usage: run_check.sh <property> <quick|thorough> [--replay <file>]
 # Rebuilds the checker if needed, then analyses /repo's current working tree.
+#   quick:    all rules of the property on the default build configuration.
+#   thorough: the same rules on the default and on the cb_sg_devmode build configuration, the larger enumerations where a
+#             rule has them (C20), and afterwards the property's one-instance-broken variants (mutants/<Cnn>/*.diff, applied as
+#             in-memory overlays of /repo's current files) are analysed to record, in the evidence file, whether the rules still
+#             detect each of them on this tree. The variants never change the exit status: only the analysis of /repo does.
 set -uo pipefail
 cd "$(dirname "$0")"
 export PATH=/opt/veriftools/go1.26.8/bin:$PATH GOPROXY=off GOSUMDB=off GOTOOLCHAIN=local
@@ -10,4 +15,23 @@ if [ ! -x bin/sgcheck ] || [ -n "$(find sgcheck -name '*.go' -newer bin/sgcheck 
   GOFLAGS=-mod=vendor ./setup.sh >/dev/null || { echo "VIOLATION property=$prop replay=/verif/out/build-failed"; exit 1; }
 fi
 export GOFLAGS=-mod=mod
-exec bin/sgcheck -repo "${VERIF_REPO:-/repo}" -property "$prop" -tier "$tier" "$@"
+if [ "$tier" != thorough ] || [ $# -gt 0 ]; then
+  exec bin/sgcheck -repo "${VERIF_REPO:-/repo}" -property "$prop" -tier "$tier" "$@"
+fi
+bin/sgcheck -repo "${VERIF_REPO:-/repo}" -property "$prop" -tier thorough; rc=$?
+if [ -d "mutants/$prop" ] && command -v python3 >/dev/null; then
+  mkdir -p out
+  VERIF_REPO="${VERIF_REPO:-/repo}" python3 tools/selftest.py "$prop" -j 8 --summary "out/sensitivity-$prop.json" > "out/sensitivity-$prop.log" 2>&1
+  python3 - "$prop" <<'PY'
+import json,sys
+p=sys.argv[1]
+try:
+    ev=json.load(open(f'evidence/{p}.json')); s=json.load(open(f'out/sensitivity-{p}.json'))
+    ev['coverage']['rule_sensitivity']={"what":"one-instance-broken variants of /repo's current files (in-memory overlays), each analysed with this property's rules; informational, does not affect the verdict","variants":s['mutants'],"detected":s['detected'],"patch_no_longer_applies":s['stale_patch'],"not_detected":s['not_detected']}
+    json.dump(ev,open(f'evidence/{p}.json','w'),indent=1)
+    print(f"rule sensitivity: {s['detected']}/{s['mutants']} one-instance-broken variants detected ({s['stale_patch']} no longer apply)")
+except Exception as e:
+    print("rule sensitivity: not recorded:",e)
+PY
+fi
+exit $rc
